@@ -9,6 +9,8 @@ import (
 	"sort"
 	"strconv"
 	"strings"
+
+	vcorpus "verif/corpus"
 )
 
 // Tok is a lexeme of the harness' own splitter (independent of the repository's lexer;
@@ -173,6 +175,12 @@ func loadCorpus(srcRoot string) ([]Program, error) {
 			return true
 		})
 	}
+	// shared corpora (package corpus)
+	for _, p := range vcorpus.Tiny() {
+		out = append(out, Program{Name: "tiny:" + p.Name, Src: p.Src})
+	}
+	ca := vcorpus.CrossAll()
+	out = append(out, Program{Name: ca.Name, Src: ca.Src})
 	for _, pat := range []string{"examples/*.tsh", "std/*.tsh"} {
 		ms, _ := filepath.Glob(filepath.Join(srcRoot, pat))
 		sort.Strings(ms)
